@@ -38,3 +38,17 @@ Theorem index_width_design_refuted :
   byte_len 256%N = 2%nat /\ be_n 2 256%N = [1%N; 0%N] /\
   byte_len (65536 - 1)%N = 2%nat /\ be_n 2 65536%N = [0%N; 0%N].
 Proof. vm_compute. repeat split; reflexivity. Qed.
+
+(** *** C16-r6m1: Block.AllTransactions appends the address of the range variable
+    (go 1.19 semantics: one variable for the whole loop).  Every pointer of an
+    account with k transactions then shows the LAST one: the list handed out is
+    [repeat (last l) k] instead of [l]; each element is a genuine record, only
+    the multiset differs. *)
+Theorem loop_variable_alias_refuted {A} (x y : A) (l : list A) :
+  x <> y -> repeat (last (x :: l ++ [y]) x) (length (x :: l ++ [y])) <> x :: l ++ [y].
+Proof.
+  intros Hxy E.
+  assert (L : last (x :: l ++ [y]) x = y).
+  { change (x :: l ++ [y]) with ((x :: l) ++ [y]). apply last_last. }
+  rewrite L in E. cbn [length repeat] in E. injection E as E _. congruence.
+Qed.
